@@ -2,6 +2,9 @@ package main
 
 import (
 	"fmt"
+	"math"
+	"math/big"
+	"strings"
 	"time"
 
 	"github.com/smart-core-os/sc-api/go/traits"
@@ -128,6 +131,17 @@ func (g *c18) segs() []*traits.ElectricMode_Segment {
 	}
 	return l
 }
+
+// like segs, magnitudes in -9..9 (Sum's law needs only the open tails to add up to >= 0)
+func (g *c18) signedSegs() []*traits.ElectricMode_Segment {
+	l := g.segs()
+	for _, s := range l {
+		if s.Magnitude != 0 && g.r.Chance(50) { // never -0: proto.Clone does not preserve it
+			s.Magnitude = -s.Magnitude
+		}
+	}
+	return l
+}
 func cloneSegs(l []*traits.ElectricMode_Segment) []*traits.ElectricMode_Segment {
 	out := make([]*traits.ElectricMode_Segment, len(l))
 	for i, s := range l {
@@ -174,7 +188,11 @@ func (g *c18) periods(p, q *typestime.Period) {
 		g.mutated("Periods", js)
 	}
 	nt := p != nil && q != nil
-	g.add("PeriodsIntersect", vcoq.App("KIntersect", coqPeriod(p), coqPeriod(q), vcoq.Bool(oi)), js, nt)
+	gt := "guard:in"
+	if inverted(p) || inverted(q) {
+		gt = "guard:out(inverted-period)"
+	}
+	g.addT("PeriodsIntersect", vcoq.App("KIntersect", coqPeriod(p), coqPeriod(q), vcoq.Bool(oi)), js, nt, gt, periodClass(p, q))
 	js2 := map[string]any{"p": jsPeriod(p), "q": jsPeriod(q), "connected": oc}
 	g.add("PeriodsConnected", vcoq.App("KConnected", coqPeriod(p), coqPeriod(q), vcoq.Bool(oc)), js2, nt)
 }
@@ -192,7 +210,7 @@ func (g *c18) segOps(l []*traits.ElectricMode_Segment, d time.Duration) {
 		defer g.recoverPanic("segmentpb.ActiveAt", base())
 		el, idx := segmentpb.ActiveAt(d, l...)
 		check("segmentpb.ActiveAt")
-		g.add("seg.ActiveAt", vcoq.App("KActiveAt", vcoq.Z(int64(d)), coqSegs(orig), vcoq.Pair(vcoq.Z(int64(el)), vcoq.Int(idx))), base(), len(l) > 0)
+		g.addT("seg.ActiveAt", vcoq.App("KActiveAt", vcoq.Z(int64(d)), coqSegs(orig), vcoq.Pair(vcoq.Z(int64(el)), vcoq.Int(idx))), base(), len(l) > 0, classActive(int64(d), orig, idx), guardTag(int64(d), orig))
 	}()
 	func() {
 		defer g.recoverPanic("segmentpb.MagnitudeAt", base())
@@ -226,7 +244,7 @@ func (g *c18) segOps(l []*traits.ElectricMode_Segment, d time.Duration) {
 		check("segmentpb.Shift")
 		js := base()
 		js["obs"] = outj
-		g.add("seg.Shift", vcoq.App("KShift", vcoq.Z(int64(d)), coqSegs(orig), outc), js, len(l) > 0 && d != 0)
+		g.addT("seg.Shift", vcoq.App("KShift", vcoq.Z(int64(d)), coqSegs(orig), outc), js, len(l) > 0 && d != 0, classShift(int64(d), orig, out), guardTag(int64(d), orig))
 	}()
 	if len(l) > 0 {
 		func() {
@@ -240,7 +258,7 @@ func (g *c18) segOps(l []*traits.ElectricMode_Segment, d time.Duration) {
 			if !proto.Equal(s, sc) {
 				g.mutated("segmentpb.Cut", js)
 			}
-			g.add("seg.Cut", vcoq.App("KCutSeg", vcoq.Z(int64(d)), coqSeg(sc), "("+cb+", "+ca+", "+vcoq.Bool(outside)+")"), js, d > 0)
+			g.addT("seg.Cut", vcoq.App("KCutSeg", vcoq.Z(int64(d)), coqSeg(sc), "("+cb+", "+ca+", "+vcoq.Bool(outside)+")"), js, d > 0, classCut(int64(d), sc))
 		}()
 	}
 }
@@ -263,7 +281,7 @@ func (g *c18) sumOp(ls [][]*traits.ElectricMode_Segment) {
 			g.mutated("segmentpb.Sum", js)
 		}
 	}
-	g.add("seg.Sum", vcoq.App("KSum", vcoq.List(items), coqSegs(out)), js, len(ls) > 1)
+	g.addT("seg.Sum", vcoq.App("KSum", vcoq.List(items), coqSegs(out)), js, len(ls) > 1, append(classSum(orig, out), sumGuardTag(orig))...)
 }
 
 func (g *c18) mode(withStart bool) *traits.ElectricMode {
@@ -299,6 +317,7 @@ func (g *c18) modeOps(m *traits.ElectricMode, t int64, d time.Duration) {
 		check("modepb.ActiveAt")
 		g.add("mode.ActiveAt", vcoq.App("KModeActiveAt", vcoq.Z(t), coqMode(orig), vcoq.Pair(vcoq.Z(int64(el)), vcoq.Int(idx))), base(), len(m.Segments) > 0)
 	}()
+	g.modeMaxAfter(m, t)
 	func() {
 		defer g.recoverPanic("modepb.Cut", base())
 		b, a, outside := modepb.Cut(tt, m)
@@ -306,7 +325,7 @@ func (g *c18) modeOps(m *traits.ElectricMode, t int64, d time.Duration) {
 		js := base()
 		js["before"], js["after"], js["outside"] = jsMode(b), jsMode(a), outside
 		check("modepb.Cut")
-		g.add("mode.Cut", vcoq.App("KModeCut", vcoq.Z(t), coqMode(orig), "("+cb+", "+ca+", "+vcoq.Bool(outside)+")"), js, !outside)
+		g.addT("mode.Cut", vcoq.App("KModeCut", vcoq.Z(t), coqMode(orig), "("+cb+", "+ca+", "+vcoq.Bool(outside)+")"), js, !outside, classModeCut(orig, t, b, a, outside))
 	}()
 	func() {
 		defer g.recoverPanic("modepb.Shift", base())
@@ -337,11 +356,15 @@ func (g *c18) modeSum(ms []*traits.ElectricMode) {
 			g.mutated("modepb.Sum", js)
 		}
 	}
-	g.add("mode.Sum", vcoq.App("KModeSum", vcoq.List(items), coqOptMode(out)), js, len(ms) > 1)
+	lists := make([][]*traits.ElectricMode_Segment, len(orig))
+	for i, m := range orig {
+		lists[i] = m.Segments
+	}
+	g.addT("mode.Sum", vcoq.App("KModeSum", vcoq.List(items), coqOptMode(out)), js, len(ms) > 1, sumGuardTag(lists))
 }
 
 func genC18(o *vcoq.Out, r *vcoq.Rand, tier string) error {
-	o.Header = "From SC Require Import Base.Prelude Timeline.Timestamp Timeline.Segment Timeline.Mode Timeline.C18Judge."
+	o.Header = "From SC Require Import Base.Prelude Timeline.Timestamp Timeline.Segment Timeline.Mode Timeline.Own Timeline.Wrap Timeline.C18Judge."
 	o.CaseType = "c18case"
 	o.Judge = "judge"
 	o.Shard = 400
@@ -399,6 +422,24 @@ func genC18(o *vcoq.Out, r *vcoq.Rand, tier string) error {
 			g.periods(p, q)
 		}
 	}
+	// the cut order (verif hook): every pair of kinds x every pair of grid timestamps; cutPeriod; constructors
+	for _, k1 := range cutKinds {
+		for _, k2 := range cutKinds {
+			for _, a := range coarse[1:] {
+				for _, b := range coarse[1:] {
+					g.cutCompare(k1, a, k2, b)
+				}
+			}
+		}
+	}
+	for _, p := range periods[1:] {
+		g.cutPeriod(p)
+	}
+	for _, a := range coarse[1:] {
+		for _, b := range coarse[1:] {
+			g.periodCtors(a, b)
+		}
+	}
 	// random 64-bit-range timestamps
 	big := func() *timestamppb.Timestamp {
 		var s int64
@@ -417,6 +458,7 @@ func genC18(o *vcoq.Out, r *vcoq.Rand, tier string) error {
 	for i := 0; i < 300*scale; i++ {
 		a, b := big(), big()
 		g.compare(a, b)
+		g.cutCompare(cutKinds[r.Intn(4)], a, cutKinds[r.Intn(4)], b)
 		if i%3 == 0 {
 			mk := func() *typestime.Period {
 				x, y := big(), big()
@@ -453,6 +495,23 @@ func genC18(o *vcoq.Out, r *vcoq.Rand, tier string) error {
 		for k := 0; k < 3; k++ {
 			g.segOps(l, time.Duration(pts[r.Intn(len(pts))]))
 		}
+		g.magOps(l)
+		if i%3 == 0 {
+			// every capacity / offset layout of the argument, a positive and a negative shift
+			for _, c := range capGrid {
+				g.ownShift(l, time.Duration(pts[r.Intn(len(pts))]), c[0], c[1])
+				g.ownShift(l, time.Duration(r.Range(1, 4)), c[0], c[1])
+			}
+		}
+	}
+	// durations at and around the int64 limits (wrap-around of the running offset)
+	for i := 0; i < 60*scale; i++ {
+		l := g.bigSegs()
+		tot, _ := segTotal(l) // wraps like the code does
+		ds := append([]int64{tot, tot - 1, tot + 1, -tot, -tot + 1}, bigDs...)
+		for k := 0; k < 3; k++ {
+			g.segOps(l, time.Duration(ds[r.Intn(len(ds))]))
+		}
 	}
 	for i := 0; i < 250*scale; i++ {
 		n := r.Range(1, 4)
@@ -460,8 +519,29 @@ func genC18(o *vcoq.Out, r *vcoq.Rand, tier string) error {
 			n = 0
 		}
 		ls := make([][]*traits.ElectricMode_Segment, n)
+		signed := r.Chance(35)
 		for k := range ls {
-			ls[k] = g.segs()
+			if signed {
+				ls[k] = g.signedSegs()
+			} else {
+				ls[k] = g.segs()
+			}
+		}
+		g.sumOp(ls)
+		if i%2 == 0 {
+			g.ownSum(ls, false)
+		}
+	}
+	// Sum over lists whose running offset reaches the int64 limits
+	for i := 0; i < 40*scale; i++ {
+		n := r.Range(1, 3)
+		ls := make([][]*traits.ElectricMode_Segment, n)
+		for k := range ls {
+			if r.Chance(60) {
+				ls[k] = g.bigSegs()
+			} else {
+				ls[k] = g.segs()
+			}
 		}
 		g.sumOp(ls)
 	}
@@ -475,6 +555,30 @@ func genC18(o *vcoq.Out, r *vcoq.Rand, tier string) error {
 		t := base + int64(r.Range(-3, 14))
 		d := time.Duration(r.Range(-8, 8))
 		g.modeOps(m, t, d)
+		if i%3 == 0 {
+			for _, c := range capGrid {
+				g.ownModeOps(m.Segments, m.StartTime, base+int64(r.Range(-1, 14)), time.Duration(r.Range(-8, 8)), c[0], c[1])
+			}
+		}
+	}
+	// start times at the ends of the valid Timestamp range: t.Sub(start) saturates
+	for i := 0; i < 40*scale; i++ {
+		m := g.mode(false)
+		m.StartTime = extremeStarts[r.Intn(len(extremeStarts))]
+		ts := []int64{0, 1, -1, math.MaxInt64, math.MinInt64, int64(r.Range(-5, 5)) * 1000000000}
+		g.modeOps(m, ts[r.Intn(len(ts))], time.Duration(r.Range(-8, 8)))
+	}
+	for i := 0; i < 80*scale; i++ {
+		n := r.Range(0, 4)
+		ms := make([]*traits.ElectricMode, n)
+		var t int64
+		for k := range ms {
+			ms[k] = g.mode(r.Chance(70))
+			if ms[k].StartTime != nil && r.Chance(50) {
+				t = tsNanos(ms[k].StartTime) + int64(r.Range(-2, 10))
+			}
+		}
+		g.minAt(ms, t)
 	}
 	for i := 0; i < 150*scale; i++ {
 		n := r.Range(1, 4)
@@ -483,10 +587,136 @@ func genC18(o *vcoq.Out, r *vcoq.Rand, tier string) error {
 		}
 		ms := make([]*traits.ElectricMode, n)
 		anyStart := r.Chance(70)
+		zeroEra := r.Chance(15)
+		signed := r.Chance(30)
 		for k := range ms {
 			ms[k] = g.mode(anyStart && r.Chance(70))
+			if signed {
+				for _, sg := range ms[k].Segments {
+					if sg.Magnitude != 0 && r.Chance(50) {
+						sg.Magnitude = -sg.Magnitude
+					}
+				}
+			}
+			if ms[k].StartTime != nil && zeroEra {
+				// around the smallest valid Timestamp, 0001-01-01T00:00:00Z, which is time.Time's zero value
+				// (all start times of the call are moved there so that their differences stay small)
+				ms[k].StartTime = &timestamppb.Timestamp{Seconds: -62135596800, Nanos: int32([]int{0, 0, 1, 5}[r.Intn(4)])}
+			}
 		}
 		g.modeSum(ms)
+		if i%2 == 0 {
+			g.ownModeSum(ms)
+		}
+	}
+	// guard-pass rate and outcome classes (which branch of the model an input takes) for the evidence
+	in, out := 0, 0
+	classes := map[string]int{}
+	for _, c := range o.Cases {
+		for _, t := range c.Tags {
+			switch {
+			case t == "guard:in":
+				in++
+			case strings.HasPrefix(t, "guard:out"):
+				out++
+				classes[t]++
+			case strings.Contains(t, ":"):
+				classes[t]++
+			}
+		}
+	}
+	never := []string{}
+	for _, want := range expectedClasses {
+		if classes[want] == 0 {
+			never = append(never, want)
+		}
+	}
+	o.Extra["coverage_extra"] = map[string]any{
+		"guard_tagged_cases": in + out, "guard_in": in, "guard_out": out,
+		"guard_note":         "cases of the kinds that have a range/validity guard (periods, segment ops with a duration, Sum); all other kinds are inside their guard by construction of the generator",
+		"outcome_classes":    classes,
+		"classes_never_hit":  never,
 	}
 	return nil
+}
+
+// every outcome class the generator is expected to reach in each run (checked: listed under classes_never_hit otherwise)
+var expectedClasses = []string{
+	"active:before-start", "active:no-segments", "active:past-end", "active:in-infinite-tail", "active:after-zero-length", "active:in-finite",
+	"shift:zero", "shift:empty", "shift:first-zero-infinite", "shift:extend-first", "shift:prepend", "shift:neg-removes-all", "shift:neg-into-infinite", "shift:neg-at-boundary", "shift:neg-cuts-segment",
+	"cut:negative", "cut:zero", "cut:infinite", "cut:whole-before", "cut:proper",
+	"sum:no-edges", "sum:coinciding-edges", "sum:distinct-edges", "sum:infinite-tail-kept", "sum:open-tail-dropped",
+	"mcut:no-segments", "mcut:no-start-time", "mcut:before-start", "mcut:at-start", "mcut:after-end", "mcut:at-boundary", "mcut:splits-segment",
+	"guard:out(int64-overflow)", "guard:out(inverted-period)", "guard:out(negative-open-tail)",
+}
+
+var extremeStarts = []*timestamppb.Timestamp{
+	{Seconds: -62135596800, Nanos: 0}, {Seconds: -62135596800, Nanos: 1}, {Seconds: 253402300799, Nanos: 999999999},
+	{Seconds: 9223372036, Nanos: 854775807}, {Seconds: -9223372037, Nanos: 145224192}, {Seconds: 9223372037, Nanos: 0}, {Seconds: 0, Nanos: 0},
+}
+
+func inverted(p *typestime.Period) bool {
+	return p != nil && p.StartTime != nil && p.EndTime != nil && sctimeAfter(p.StartTime, p.EndTime)
+}
+func sctimeAfter(a, b *timestamppb.Timestamp) bool {
+	return a.Seconds > b.Seconds || (a.Seconds == b.Seconds && a.Nanos > b.Nanos)
+}
+func periodClass(p, q *typestime.Period) string {
+	sh := func(p *typestime.Period) string {
+		switch {
+		case p == nil:
+			return "nil"
+		case p.StartTime == nil && p.EndTime == nil:
+			return "all"
+		case p.StartTime == nil:
+			return "before"
+		case p.EndTime == nil:
+			return "from"
+		case proto.Equal(p.StartTime, p.EndTime):
+			return "empty"
+		case inverted(p):
+			return "inverted"
+		}
+		return "bounded"
+	}
+	return "periods:" + sh(p) + "/" + sh(q)
+}
+
+// dur_guard of Timeline/Wrap.v, for the histogram only
+func guardTag(d int64, l []*traits.ElectricMode_Segment) string {
+	tot := new(big.Int)
+	for _, s := range l {
+		if s.Length != nil {
+			n := int64(s.Length.AsDuration())
+			if n < 0 {
+				return "guard:out(negative-length)"
+			}
+			tot.Add(tot, big.NewInt(n))
+		}
+	}
+	ad := new(big.Int).Abs(big.NewInt(d))
+	if tot.Add(tot, ad).Cmp(big.NewInt(math.MaxInt64)) > 0 {
+		return "guard:out(int64-overflow)"
+	}
+	return "guard:in"
+}
+func sumGuardTag(ls [][]*traits.ElectricMode_Segment) string {
+	for _, l := range ls {
+		if guardTag(0, l) != "guard:in" {
+			return "guard:out(int64-overflow)"
+		}
+	}
+	var tail float32
+	for _, l := range ls {
+		for _, s := range l {
+			if s.Length == nil {
+				tail += s.Magnitude
+				break
+			}
+		}
+	}
+	if tail < 0 {
+		return "guard:out(negative-open-tail)"
+	}
+	return "guard:in"
 }
